@@ -87,6 +87,11 @@ CHECKS = {
    technique="exhaustive enumeration of the full product (accessor pair x value menu x 6 prior paragraph states), of all ordered setter pairs per view and of a raw-text reading table, executed on the real typed views; field names in the table are written from Debian documentation, not from the code",
    text="146 getter/setter pairs (control Source/Binary, apt Source/Package/Release, Changes, Buildinfo, copyright Header/FilesParagraph, DEP-3 PatchHeader) x 2-3 valid values (plus clearing where the setter takes an Option) x 6 prior states (field absent; present with another value; present with comments around it and a field after; fields before and after; in a two-paragraph document after / before a paragraph of another kind): the getter must return the value (live and after printing + re-reading), exactly one field of the documented Debian name must hold it (none after clearing), every other field, paragraph and comment must be unchanged. Every ordered pair of setters of a view is applied in sequence. 75 reading rows check getters on raw text (comma/space/line lists, yes/no flags, checksum triples, description lines, source/binary classification).",
    note="Trusted base: the hand-written field names and expected readings (from Policy, deb822/deb-src-control man pages, DEP-3, DEP-5, repository format). Empty lists, case-insensitive field-name lookup and readings the statement does not document were removed from the table after triage (DESIGN §3 C15)."),
+ "C16": dict(
+   category="exploration", design_ref="DESIGN.md §3 C16",
+   technique="exhaustive enumeration over programs (16 single-field structs = every field shape the derive macro distinguishes, one 16-field struct, all 12 shipped deriving structs) x presence/value vectors within k deviations of two baselines x both paragraph back-ends x update priors",
+   text="Programs: one struct per combination of mandatory/optional x default/renamed key x default/custom serialiser x default/custom deserialiser (16), a struct with all 16 shapes, and every deriving struct in the workspace (lossy control Source/Binary, apt Release/Source/Package, Buildinfo, Removal, copyright Header/Files/Licence paragraphs, DEP-3 PatchHeader, apt-sources Repository). For every presence/value vector within 2 (thorough 3) deviations of the all-mandatory and all-present baselines: to_paragraph lists exactly the present fields in declaration order under the configured names with values through the codecs, from_paragraph(to_paragraph(x)) == x, both back-ends agree; for <= 1 deviation also update_paragraph onto 4 prior contents (empty, own fields with other values, own fields interleaved with foreign fields/comments/odd spacing, every optional present) on both back-ends (reads back equal, absent optionals removed, own fields once, foreign lines byte-identical in order), each mandatory field deleted and each field corrupted must give an error naming the field.",
+   note="Field tables (names, valid/invalid raw values, comparison mode) are hand-written from the struct definitions; hash-ordered collections carry one element."),
  "C17": dict(
    category="exploration", design_ref="DESIGN.md §3 C17",
    technique="exhaustive enumeration of (glob pattern x path) pairs over token/character alphabets and of all small copyright files x paths, executed through both real readers against a backtracking reference matcher and a last-match-wins reference",
@@ -102,6 +107,11 @@ CHECKS = {
    technique="exhaustive fault enumeration: for every message of a bounded family, every line truncation, every byte truncation (small sub-family), every trailing addition; reference computed from construction offsets",
    text="Message family: every sequence of <= 2 armour headers x every sequence of <= 3 (thorough 4) payload lines from 7 templates (empty line, deb822 field, indented line, two marker look-alikes, header look-alike, Unicode) x every sequence of <= 2 signature lines. For every message: the intact message must unwrap to exactly (payload, concatenated signature lines); the payload alone must pass through unchanged; truncation after every line and (for <= 1 header, <= 2 payload lines, <= 1 signature line) at every byte must give MissingPayload / MissingPgpSignature / TruncatedPgpSignature according to where the cut falls relative to the blank line / BEGIN / END markers (a cut inside the first marker line is passthrough); each of 4 trailing additions must give JunkAfterPgpSignature.",
    note="Payload lines are LF-terminated and never start with '-', as the statement requires."),
+ "C20": dict(
+   category="exploration", design_ref="DESIGN.md §3 C20",
+   technique="exhaustive enumeration of typed documents (paragraph sequences x k-deviation field vectors x 4 layouts) from hand-written field tables through parse, field-wise comparison with the lossless reader, print, re-parse and re-print; plus every structurally invalid variant",
+   text="Nine document kinds (lossy control file, copyright file, apt Sources/Packages/Release stanza, removal record, lossy buildinfo, DEP-3 header, APT sources list): every paragraph sequence of the kind's shape list (source before/between/after up to 2 binaries; header + Files/licence paragraphs in 8 orders; 1-2 repositories) x every presence/value vector within 1 (thorough 2) deviations of the all-mandatory and all-present baselines x 4 layouts (comments, blank-line variants) is parsed; roles must be assigned by the distinguishing fields, every field must carry what the lossless reader shows for the same text (through the type's codec), the print must re-parse to an equal value and print identically again; each mandatory field deleted in turn and 12 structurally invalid texts (no/two source paragraphs, paragraph of neither kind, missing Format, ...) must be rejected.",
+   note="Types without Display print through to_paragraph::<lossy::Paragraph>(); hash-ordered collections carry one element in generated documents (their print order was fixed to be sorted)."),
 }
 
 PENDING_REASON = "check not built yet in this round (work in progress; DESIGN.md §3 describes the intended bounded exhaustive exploration)"
